@@ -62,6 +62,10 @@ EpochOk(e) ==
         /\ Range(k.resp) = Range(k.def)                      \* is_responsible agrees with the replica list
         /\ k.primary = (IF Len(k.def) = 0 THEN 0 ELSE k.def[1])
 EpochRoutesOk(e) == \A r \in Range(e.routes) : RouteSet(r.new) = ExpectedRoutes(e, r.sender)
+(* routed while the peer tables lagged behind the ring (PlacementDyn!NobodyElse, and a stale table starves the newcomer only) *)
+PreOk(e) == \A r \in Range(e.pre) :
+               /\ RouteSet(r.new) \subseteq ExpectedRoutes(e, r.sender)
+               /\ (e.op[1] = "join" => {p \in ExpectedRoutes(e, r.sender) : p[1] # e.op[2]} \subseteq RouteSet(r.new))
 KeyAt(e, name) == CHOOSE k \in Range(e.keys) : k.k = name
 StepOk(old, new) ==
   LET x == new.op[2] IN
@@ -73,6 +77,7 @@ DynVerdict(c) ==
   IF "panic" \in DOMAIN c THEN "panic"
   ELSE IF \E i \in DOMAIN c.epochs : ~EpochOk(c.epochs[i]) THEN "after a membership change at run time the replica list differs from Replicas(observed ring), or the ring does not hold exactly the members"
   ELSE IF \E i \in DOMAIN c.epochs : ~EpochRoutesOk(c.epochs[i]) THEN "after a membership change at run time a routing table differs from Replicas minus sender"
+  ELSE IF \E i \in DOMAIN c.epochs : ~PreOk(c.epochs[i]) THEN "while the peer tables lagged behind a membership change an update went to somebody who does not own its key, or an owner other than the newcomer was starved"
   ELSE IF \E i \in 2..Len(c.epochs) : ~StepOk(c.epochs[i - 1], c.epochs[i]) THEN "a join or leave changed the placement of a key that neither gained nor lost that node"
   ELSE "ok"
 
